@@ -279,4 +279,48 @@ CHECKS = {
                       "reports). One root cause (unlocked treasure setters vs RLock-only getters) is recorded as a signature; pairs outside it are violations.",
         "assumptions": ["the test binary is built with -race and re-executes itself as child"],
     },
+    "C11": {
+        "pkg": "claims", "run": "^TestC11", "level": "exploration", "overlay": "vsched", "tags": ["verifvsched"],
+        "shards": {"quick": 16, "thorough": 16}, "timeout": {"quick": 900, "thorough": 3600},
+        "technique": "property-based concurrent histories (rapid) with schedule perturbation; a per-key real-time-respecting order oracle plus count and order clauses; a sequential exact-model facet",
+        "level_text": "Generated swamps are raced by 2-5 claimers (ShiftExpired, ShiftMatching, PatchExpired) and 0-3 mutators (PatchTreasures, Set, Delete) through the in-process "
+                      "gateway under drawn perturbation plans. Every acknowledged response and the quiescent state (GetAll + all index listings) must be explained, per key, by some "
+                      "real-time-respecting order of a sequential claim specification; per caller the count bound and index order are checked; a sequential facet demands exactly "
+                      "the first matching records.",
+        "level_note": "Detection is probabilistic; a reported violation is a property of the recorded history. Indexes and buckets are pre-built (the cold-build race is C10's). Writes to an "
+                      "already-removed record are judged by C09. Two recorded findings are excluded from the main facet and tolerated by shape in the full-domain facet.",
+        "assumptions": ["generated expiries are at least 5 s away from now", "keys are never re-inserted by the harness"],
+    },
+    "C12": {
+        "pkg": "claims", "run": "^TestC12", "level": "exploration", "overlay": "vsched", "tags": ["verifvsched"],
+        "shards": {"quick": 8, "thorough": 16}, "timeout": {"quick": 900, "thorough": 3600},
+        "technique": "property-based concurrent cap-bearing batches with schedule perturbation; quiescent count oracle; a sequential four-cell budget model",
+        "level_text": "Rounds of 2-6 concurrent batches sharing one Cap (PatchTreasures, PatchExpired, ShiftMatching; moves in/out/in-in/out-out, creates) run under drawn perturbation "
+                      "plans; after every round the number of records matching the cap filter, computed from GetAll by an independent evaluator, must be <= MaxMatching. A sequential "
+                      "facet checks per-key statuses, CapReached, bodies and count against the documented four-cell budget rule.",
+        "level_note": "Counts are read only at quiescence (a mid-round scan is not atomic). Cap-less writers only move records out, as the statement presupposes.",
+        "assumptions": ["the cap filter is body-only", "created records carry a seed body"],
+    },
+    "C13": {
+        "pkg": "codec", "run": "^TestC13", "level": "exploration",
+        "shards": {"quick": 2, "thorough": 16}, "timeout": {"quick": 900, "thorough": 3600},
+        "technique": "rapid property-based testing + native go fuzzing of msgpackpatch against an independent ordered-tree reference model of the documented semantics",
+        "level_text": "Byte-level msgpack bodies (every leaf code, nested containers) x op lists (all 8 kinds, paths derived from the body, well-formed and malformed values) x conditions "
+                      "are applied by the real ApplyWithCondition and by an independent model: error class, first-failing-op and condition-first rules, tree equality with untouched "
+                      "leaf bytes exact, INC keeping the numeric code, input never mutated, success = exactly one well-formed value. The same scenarios run through swamp.PatchFields; "
+                      "hostile declared counts run in a memory-limited child; thorough adds a native fuzz campaign.",
+        "level_note": "Where the documentation is silent (INC overflow, fixint class, nil/ext comparisons, paths into containers spliced by an earlier op) cases are counted as unspecified and only the generic clauses are asserted.",
+        "assumptions": ["string-keyed maps with unique keys", "body nesting <= 4"],
+    },
+    "C24": {
+        "pkg": "codec", "run": "^TestC24", "level": "exploration",
+        "shards": {"quick": 4, "thorough": 16}, "timeout": {"quick": 900, "thorough": 3600},
+        "technique": "rapid property-based testing + native go fuzzing of the compressor: round-trip and corruption oracle under a hang watchdog",
+        "level_text": "Payloads from 0 to 1 MiB x 4 algorithms: Decompress(Compress(x)) == x with inputs unmodified; each of 1-3 damage steps (truncate, bit flips, window overwrite, "
+                      "appended garbage, region swap) must give an error or exactly x, never empty or different data with a nil error; a separate facet bounds allocation for small "
+                      "damaged inputs; thorough adds a native fuzz campaign.",
+        "level_note": "With checksums detection of corruption is probabilistic by design (~2^-32). Snappy block format has no integrity check and LZ4 frame truncation at field boundaries "
+                      "reads as clean EOF: both are recorded findings, excluded from the main damage clause and kept as witnesses.",
+        "assumptions": ["damage = local corruptions, not substitution of another valid frame"],
+    },
 }
